@@ -457,4 +457,57 @@ theorem step_ok (st : MState) (op : MOp) : (stepV v (mkCf ad rw payload corner a
 
 end
 
+/-! ### a decidable certificate for concrete draw frames -/
+
+/-- the effect a draw command must have on the emulator's registers to match Layer A (cursor-colour *setting* excluded) -/
+def cmdEffD (ad : AD) : Cmd → Eff
+  | .hideCursor => if ad.hideCursor then { cv := some false } else {}
+  | .showCursor cs _ =>
+    (if ad.showCursor then ({ cv := some true } : Eff) else {}).seq (if ad.styleStr cs then { shape := some cs } else {})
+  | _ => {}
+
+/-- certificate for one concrete command: its bytes tokenize with the expected effect; a cursor command sets no colour -/
+def cmdCert (rc : RenderCfg) (ad : AD) (c : Cmd) : Bool :=
+  (effOfBytes (Render.render rc c) == some (cmdEffD ad c)) &&
+  (match c with
+   | .showCursor _ cc => !ad.cursorRGB || (cc != colorReset && cc / 2^32 % 2 != 1)
+   | _ => true)
+
+def framesCert (rc : RenderCfg) (ad : AD) (evs : List Ev) : Bool :=
+  evs.all fun e => match e with
+    | .frame cmds => cmds.all (cmdCert rc ad)
+    | _ => true
+
+theorem cmdOk_of_cert (rc : RenderCfg) (ad : AD) (sel : Sel) (c : Cmd) (h : cmdCert rc ad c = true) : CmdOk rc ad sel c := by
+  simp only [cmdCert, Bool.and_eq_true, beq_iff_eq] at h
+  refine cmdOk_of_eff rc ad sel c _ h.1 (fun m hj => ⟨?_, ?_⟩)
+  · cases c
+    case hideCursor =>
+      cases h1 : ad.hideCursor <;>
+        simp [cmdEffD, Eff.apply, Eff.base, runTtl, absOf, eraseP, evEffect, Comp.ev_frame, cCv, cShape, cTint, h1,
+          cAlt_cmd, cKeypad_cmd, cMouse_cmd, cPaste_cmd, cFocus_cmd, cAm_cmd, cTtl_cmd]
+    case showCursor cs cc =>
+      have hc := h.2
+      simp only [Bool.or_eq_true, Bool.not_eq_true', Bool.and_eq_true, bne_iff_ne, ne_eq] at hc
+      have htint : ∀ b, cTint.cmd ad (.showCursor cs cc) b = b := by
+        intro b
+        simp only [cTint]
+        rcases hc with hc | hc
+        · simp [hc]
+        · simp [hc.1, hc.2]
+      cases h1 : ad.showCursor <;> cases h2 : ad.styleStr cs <;>
+        simp [cmdEffD, Eff.seq, Eff.apply, Eff.base, runTtl, absOf, eraseP, evEffect, Comp.ev_frame, cCv, cShape, htint, h1, h2,
+          cAlt_cmd, cKeypad_cmd, cMouse_cmd, cPaste_cmd, cFocus_cmd, cAm_cmd, cTtl_cmd]
+    all_goals
+      simp [cmdEffD, Eff.apply, Eff.base, runTtl, absOf, eraseP, evEffect, Comp.ev_frame, cCv, cShape, cTint,
+        cAlt_cmd, cKeypad_cmd, cMouse_cmd, cPaste_cmd, cFocus_cmd, cAm_cmd, cTtl_cmd]
+  · apply J_apply sel _ m hj <;> intro _ <;> cases c <;> simp [cmdEffD, Eff.seq] <;> (repeat' split) <;>
+      first | rfl | exact ⟨rfl, rfl⟩
+
+theorem framesOk_of_cert (rc : RenderCfg) (ad : AD) (sel : Sel) (evs : List Ev) (h : framesCert rc ad evs = true) :
+    ∀ cmds, Ev.frame cmds ∈ evs → ∀ c ∈ cmds, CmdOk rc ad sel c := by
+  intro cmds he c hc
+  have := List.all_eq_true.mp h _ he
+  exact cmdOk_of_cert rc ad sel c (List.all_eq_true.mp this c hc)
+
 end Tcell.ModesB
